@@ -49,6 +49,26 @@ def ev(f, e, env, locals_=None, depth=0):
         tv = tf2(e, env)
         if tv is not None:
             return wrap(tv, t)
+    if k == "MemberExpr" and e.get("isfield") and c and strip(c[0])["k"] == "ArraySubscriptExpr":
+        # ARR[i].field of a constant global array of records
+        sub = strip(c[0])
+        base = facts.strip_all(sub["c"][0])
+        db_ = env.get("__db__") or facts.db_of(f)
+        gl = db_.globals.get(base.get("var")) if (db_ is not None and base["k"] == "DeclRefExpr" and base.get("glob")) else None
+        if gl is not None and gl.get("const") and (gl.get("init") or {}).get("k") == "InitListExpr":
+            i_ = ev(f, sub["c"][1], env, locals_, depth + 1)
+            rows = gl["init"].get("c", [])
+            if not (0 <= i_ < len(rows)):
+                raise Undefined("index %d outside the %d-element array %s" % (i_, len(rows), base.get("name")))
+            row = rows[i_]
+            rec = db_.records.get(e.get("mrec")) or {}
+            names = [x["name"] for x in rec.get("fields", [])]
+            if e.get("member") in names and row.get("k") == "InitListExpr" and names.index(e["member"]) < len(row.get("c", [])):
+                cell = row["c"][names.index(e["member"])]
+                v_ = facts.cval(cell)
+                if v_ is not None:
+                    return wrap(int(v_), t)
+            raise Unknown("element %s of %s" % (e.get("member"), base.get("name")))
     if k == "MemberExpr" and e.get("isfield") and c and env.get("__db__") is not None:
         # bit-field / member of a record-valued term
         base = ev(f, c[0], env, locals_, depth + 1)
@@ -80,6 +100,11 @@ def ev(f, e, env, locals_=None, depth=0):
             return wrap(env[var], t)
         if "v" in e:
             return e["v"]
+        if e.get("glob"):
+            db_ = env.get("__db__") or facts.db_of(f)
+            gl = db_.globals.get(var) if db_ is not None else None
+            if gl is not None and gl.get("const") and (gl.get("init") or {}).get("v") is not None:
+                return wrap(int(gl["init"]["v"]), t)
         if locals_ and var in locals_:
             return wrap(ev(f, locals_[var], env, locals_, depth + 1), t)
         raise Unknown("free variable %s" % e.get("name"))
@@ -169,6 +194,10 @@ def ev(f, e, env, locals_=None, depth=0):
 class _Return(Exception):
     def __init__(self, v):
         self.v = v
+
+
+class _Continue(Exception):
+    pass
 
 
 class _Break(Exception):
@@ -265,6 +294,41 @@ def _run(f, s, st):
         st[lhs["var"]] = wrap(ev(f, s["c"][1], st), facts.ty(f, lhs))
     elif k in ("ExprWithCleanups",):
         _run(f, s["c"][0], st)
+    elif k in ("ForStmt", "WhileStmt"):
+        # concrete execution of a counting loop (all state is integer-valued here): bounded number of iterations
+        parts = s.get("c", [])
+        if k == "ForStmt":
+            init, cnd, inc, body = parts[0], parts[-3] if len(parts) >= 4 else None, parts[-2], parts[-1]
+        else:
+            init, cnd, inc, body = None, [x for x in parts[:-1] if x is not None][-1], None, parts[-1]
+        if init is not None:
+            _run(f, init, st)
+        n_it = 0
+        while cnd is None or ev(f, cnd, st):
+            n_it += 1
+            if n_it > 4096:
+                raise Unknown("loop does not end within 4096 iterations")
+            try:
+                _run(f, body, st)
+            except _Break:
+                break
+            except _Continue:
+                pass
+            if inc is not None:
+                _run(f, inc, st)
+    elif k == "ContinueStmt":
+        raise _Continue()
+    elif k == "UnaryOperator" and s.get("op") in ("++", "--"):
+        lhs = strip(s["c"][0])
+        if lhs["k"] != "DeclRefExpr" or lhs.get("var") not in st:
+            raise Unknown("step of %s" % facts.expr_str(lhs))
+        st[lhs["var"]] = wrap(st[lhs["var"]] + (1 if s["op"] == "++" else -1), facts.ty(f, lhs))
+    elif k == "CompoundAssignOperator" and s.get("op") in ("+=", "-="):
+        lhs = strip(s["c"][0])
+        if lhs["k"] != "DeclRefExpr" or lhs.get("var") not in st:
+            raise Unknown("update of %s" % facts.expr_str(lhs))
+        d_ = ev(f, s["c"][1], st)
+        st[lhs["var"]] = wrap(st[lhs["var"]] + (d_ if s["op"] == "+=" else -d_), facts.ty(f, lhs))
     else:
         raise Unknown("statement kind %s" % k)
 
